@@ -497,3 +497,80 @@ def lb_confirm_contracts(tier):
     """[(contracts, table)] - verified with their own callee tables"""
     t_row, t_conf = lb_tables()
     return [([confirm_row_contract()], t_row), ([confirm_contract()], t_conf)]
+
+
+# ----------------------------------------------------------------------------- find_largest_size_bounded_curvature
+# Returns a d-bounded curvature of X: the distance matrix of a subset of the points of X (a principal submatrix of DX: the same
+# strictly increasing index map phi on rows and columns) all of whose off-diagonal entries are >= d.  Which row is removed in each
+# round (the sort keys) only affects how large the result is - never whether it is a curvature; the keys are left abstract.
+def curvature_contract():
+    def make_args(eng):
+        DX, n = sym_metric(eng, "DX")
+        diam = eng.fresh_int("diam_X", lo=0)
+        d = eng.fresh_int("d", lo=1)
+        return {"DX": DX, "diam_X": diam, "d": d}, {"n": n}
+
+    def requires(a):
+        return metric_requires(a.DX, a.g["n"], "DX")
+
+    def witness(st):
+        """(phi, k): index map of the current K into DX"""
+        e, g = st.eng, st.g
+        K = st.K
+        if K is st.entry.get("DX") or K is getattr(st, "DX", None):
+            return (lambda i: i), g["n"]
+        base = e.ghost.get("curv_phi")
+        if base is None:
+            return None, None
+        phi0 = lambda i: Num(base(to_z3(lift(i))))
+        if st.mode == "prove" and st.env.has("row_to_remove") and K is not e.ghost.get("curv_K"):
+            r = st.env.lookup("row_to_remove")
+            return (lambda i: phi0(lift(i) + ite(lift(i) >= r, 1, 0))), K.shape[0]
+        return phi0, K.shape[0]
+
+    def inv(st):
+        e, g = st.eng, st.g
+        K = st.K
+        phi, k = witness(st)
+        if phi is None:
+            return [("K_is_a_principal_submatrix_of_DX", False, "P")]
+        n = g["n"]
+        return [("K_is_square_and_no_larger_than_DX", b_and(lift(K.shape[0]) == K.shape[1], lift(K.shape[0]) >= 0, lift(K.shape[0]) <= n), "P"),
+                ("index_map_into_X", st.each([(0, k)], lambda i: b_and(lift(phi(i)) >= 0, lift(phi(i)) < n), name="cp"), "P"),
+                ("index_map_strictly_increasing", st.each([(0, k), (0, k)], lambda i, j: BoolV(z3.Implies(to_z3(lift(i)) < to_z3(lift(j)), to_z3(lift(phi(i))) < to_z3(lift(phi(j))))), name="cm"), "P"),
+                ("entries_are_distances_between_the_selected_points", st.each([(0, k), (0, k)], lambda i, j: lift(K.get(i, j)) == st.DX.get(phi(i), phi(j)), name="ce"), "P")]
+
+    def havoc_K(st):
+        e = st.eng
+        k = e.fresh_int("k_cur", lo=0)
+        K = fresh_symbolic("Kcur", (k, k), dtype="int", eng=e)
+        e.ghost["curv_phi"] = z3.Function(e.uniq("phi"), z3.IntSort(), z3.IntSort())
+        e.ghost["curv_K"] = K
+        return K
+
+    def ensures(a, res):
+        e, g = a.eng, a.g
+        if not (isinstance(res, Arr) and res.ndim == 2):
+            return [("returns_a_matrix", False, "P")]
+        k = res.shape[0]
+        i, j = e.fresh_int("ri", lo=0, hi=k), e.fresh_int("rj", lo=0, hi=k)
+        base = e.ghost.get("curv_phi")
+        if res is a.DX:
+            phi = lambda t: t
+        elif base is not None:
+            phi = lambda t: Num(base(to_z3(lift(t))))
+        else:
+            return [("result_is_a_principal_submatrix_of_DX", False, "P")]
+        return [("square", lift(res.shape[0]) == res.shape[1], "P"),
+                ("selected_points_exist_and_are_distinct", b_and(lift(phi(i)) >= 0, lift(phi(i)) < g["n"], BoolV(z3.Implies(to_z3(lift(i)) != to_z3(lift(j)), to_z3(lift(phi(i))) != to_z3(lift(phi(j)))))), "P"),
+                ("entries_are_the_distances_between_the_selected_points", lift(res.get(i, j)) == a.DX.get(phi(i), phi(j)), "P"),
+                ("all_distances_between_distinct_selected_points_at_least_d", BoolV(z3.Implies(to_z3(lift(i)) != to_z3(lift(j)), to_z3(lift(res.get(i, j))) >= to_z3(lift(a.d)))), "P")]
+    return Contract(MOD, "find_largest_size_bounded_curvature", make_args, requires=requires, ensures=ensures, definedness="P",
+                    loops={0: LoopContract("while np.any(", inv, variant=lambda st: st.K.shape[0], cls="P", havoc={"K": havoc_K})})
+
+
+_lb_prev = lb_confirm_contracts
+
+
+def lb_confirm_contracts(tier):     # noqa: F811
+    return _lb_prev(tier) + [([curvature_contract()], {})]
